@@ -45,13 +45,16 @@ Fixpoint rle_get_at_from (x : Z) (r : rle) (pos : Z) : attr :=
 Definition rle_get_at (r : rle) (pos : Z) : attr :=
   if pos <? 0 then None else rle_get_at_from 0 r pos.
 
-(* rle_append_modify: append (a, r), merging with the LAST run when its attribute is equal *)
-Fixpoint rle_append_modify (r : rle) (ar : run) : rle :=
+(* rle_append_modify: "if not r: return"; otherwise append (a, r), merging with the LAST run
+   when its attribute is equal *)
+Fixpoint rle_append_nz (r : rle) (ar : run) : rle :=
   match r with
   | [] => [ar]
   | [(la, lr)] => if attr_eqb la (fst ar) then [(fst ar, lr + snd ar)] else [(la, lr); ar]
-  | x :: t => x :: rle_append_modify t ar
+  | x :: t => x :: rle_append_nz t ar
   end.
+Definition rle_append_modify (r : rle) (ar : run) : rle :=
+  if snd ar =? 0 then r else rle_append_nz r ar.
 
 (* ------------------------------------------------------------------------------------ *)
 (* (1) util.py: _tagmarkup_recurse, decompose_tagmarkup                                  *)
@@ -132,8 +135,9 @@ Definition decompose_tagmarkup (tm : markup) : result (bool * list Z * rle) :=
 (* ------------------------------------------------------------------------------------ *)
 (* (2) canvas.py: apply_text_layout                                                      *)
 
-(* one character of the text: bytes it occupies after apply_target_encoding, and columns *)
-Record chr := Chr { c_enc : Z; c_wid : Z }.
+(* one character of the text: bytes it occupies after apply_target_encoding, columns, and
+   whether str.isascii() holds of it *)
+Record chr := Chr { c_enc : Z; c_wid : Z; c_ascii : bool }.
 
 Inductive seg :=
   | SText (sc offs e : Z)                     (* (sc, offs, end) *)
@@ -185,7 +189,7 @@ Fixpoint attrrange_slow (text : list chr) (runs : rle) (o e destw : Z) (linea : 
   end.
 
 (* attrrange(start_offs, end_offs, destw) *)
-Definition attrrange (text : list chr) (attrs : rle) (st : awstate) (linea : rle) (start e destw : Z)
+Definition attrrange (isb : bool) (text : list chr) (attrs : rle) (st : awstate) (linea : rle) (start e destw : Z)
   : result (rle * awstate) :=
   let '(runs, st') := arange attrs st start e in
   if start =? e then
@@ -193,7 +197,8 @@ Definition attrrange (text : list chr) (attrs : rle) (st : awstate) (linea : rle
     | [(at_, _)] => Ok (rle_append_modify linea (at_, destw), st')
     | _ => Err ValueError                          (* [(at, run)] = ... unpacking *)
     end
-  else if destw =? e - start then
+  else if (destw =? e - start) && (isb || forallb c_ascii (py_slice text start e)) then
+    (* ... and (isinstance(text, bytes) or text[start_offs:end_offs].isascii()) *)
     Ok (fold_left rle_append_modify runs linea, st')
   else Ok (attrrange_slow text runs start e destw linea, st').
 
@@ -210,7 +215,7 @@ Definition seg_check (s : seg) : result unit :=
 Record lstate := LS { l_attr : rle; l_bytes : Z; l_cols : Z; l_aw : awstate }.
 
 (* one iteration of "for seg in line_layout" *)
-Definition do_seg (text : list chr) (attrs : rle) (ls : lstate) (s : seg) : result lstate :=
+Definition do_seg (isb : bool) (text : list chr) (attrs : rle) (ls : lstate) (s : seg) : result lstate :=
   match seg_check s with
   | Err x => Err x
   | Ok _ =>
@@ -220,31 +225,32 @@ Definition do_seg (text : list chr) (attrs : rle) (ls : lstate) (s : seg) : resu
     let sc := seg_sc s in
     if negb (s_end =? 0) then                                       (* if s.end: *)
       let destw := enc_len text s_offs s_end in
-      match attrrange text attrs (l_aw ls) (l_attr ls) s_offs s_end destw with
+      match attrrange isb text attrs (l_aw ls) (l_attr ls) s_offs s_end destw with
       | Err x => Err x
       | Ok (la, aw) => Ok (LS la (l_bytes ls + destw) (l_cols ls + sum_wid (py_slice text s_offs s_end)) aw)
       end
     else if negb (s_text =? 0) then                                 (* elif s.text: *)
       let '(ilen, iw) := match s with SIns _ _ _ ilen iw => (ilen, iw) | _ => (0, 0) end in
-      match attrrange text attrs (l_aw ls) (l_attr ls) s_offs s_offs ilen with
+      match attrrange isb text attrs (l_aw ls) (l_attr ls) s_offs s_offs ilen with
       | Err x => Err x
       | Ok (la, aw) => Ok (LS la (l_bytes ls + ilen) (l_cols ls + iw) aw)
       end
     else if negb (s_offs =? 0) then                                 (* elif s.offs: *)
       if negb (sc =? 0) then                                        (*   if s.sc: *)
-        match attrrange text attrs (l_aw ls) (l_attr ls) s_offs s_offs sc with
+        match attrrange isb text attrs (l_aw ls) (l_attr ls) s_offs s_offs sc with
         | Err x => Err x
         | Ok (la, aw) => Ok (LS la (l_bytes ls + Z.max 0 sc) (l_cols ls + Z.max 0 sc) aw)
         end
       else Ok ls
-    else                                                            (* else: linea.append((None, sc)) *)
+    else if negb (sc =? 0) then                                     (* elif s.sc: linea.append((None, sc)) *)
       Ok (LS (l_attr ls ++ [(None, sc)]) (l_bytes ls + Z.max 0 sc) (l_cols ls + Z.max 0 sc) (l_aw ls))
+    else Ok ls
   end.
 
-Fixpoint do_segs (text : list chr) (attrs : rle) (ls : lstate) (segs : list seg) : result lstate :=
+Fixpoint do_segs (isb : bool) (text : list chr) (attrs : rle) (ls : lstate) (segs : list seg) : result lstate :=
   match segs with
   | [] => Ok ls
-  | s :: r => match do_seg text attrs ls s with Err x => Err x | Ok ls' => do_segs text attrs ls' r end
+  | s :: r => match do_seg isb text attrs ls s with Err x => Err x | Ok ls' => do_segs isb text attrs ls' r end
   end.
 
 (* trim_line(line_layout, text, 0, maxcol) is NOT modelled: [lines] below are the lines as
@@ -252,14 +258,14 @@ Fixpoint do_segs (text : list chr) (attrs : rle) (ls : lstate) (segs : list seg)
    text-layout property).  Everything after that call is modelled. *)
 
 (* the "for line_layout in ls" loop: the walker state is shared by all lines *)
-Fixpoint do_lines (text : list chr) (attrs : rle) (maxcol : Z) (aw : awstate) (lines : list (list seg))
+Fixpoint do_lines (isb : bool) (text : list chr) (attrs : rle) (maxcol : Z) (aw : awstate) (lines : list (list seg))
   : result (list lstate) :=
   match lines with
   | [] => Ok []
   | l :: r =>
-      match do_segs text attrs (LS [] 0 0 aw) l with
+      match do_segs isb text attrs (LS [] 0 0 aw) l with
       | Err x => Err x
-      | Ok ls => match do_lines text attrs maxcol (l_aw ls) r with
+      | Ok ls => match do_lines isb text attrs maxcol (l_aw ls) r with
                  | Err x => Err x
                  | Ok rs => Ok (ls :: rs)
                  end
@@ -285,9 +291,9 @@ Fixpoint canvas_lines (maxcol : Z) (l : list lstate) : result (list rle) :=
               end
   end.
 
-Definition apply_text_layout (text : list chr) (attrs : rle) (lines : list (list seg)) (maxcol : Z)
+Definition apply_text_layout (isb : bool) (text : list chr) (attrs : rle) (lines : list (list seg)) (maxcol : Z)
   : result (list rle) :=
-  match do_lines text attrs maxcol (0, 0) lines with
+  match do_lines isb text attrs maxcol (0, 0) lines with
   | Err x => Err x
   | Ok ls => canvas_lines maxcol ls
   end.
@@ -518,11 +524,13 @@ Definition reg_entry (s : screen) (name : attr) (large_h : bool) (e : pentry) : 
   | Ok s1 => Ok (Scr (pset (s_palette s1) name e') (s_escape s1) (s_colors s1) (s_bib s1) (s_bbb s1) (s_hasul s1))
   end.
 
-(* register_palette, a 2-tuple item *)
+(* register_palette, a 2-tuple item: the palette entry is copied, then the signal runs
+   _on_update_palette_entry (which can only fail for a colour depth no Screen accepts) *)
 Definition reg_alias (s : screen) (name like : attr) : result screen :=
   match plookup like (s_palette s) with
   | None => Err OtherError                                  (* ScreenError *)
-  | Some e => Ok (Scr (pset (s_palette s) name e) (s_escape s) (s_colors s) (s_bib s) (s_bbb s) (s_hasul s))
+  | Some e =>
+      on_update (Scr (pset (s_palette s) name e) (s_escape s) (s_colors s) (s_bib s) (s_bbb s) (s_hasul s)) name e
   end.
 
 (* set_terminal_properties *)
@@ -619,12 +627,12 @@ Definition run_markup (l : list Z) : list Z :=
   | None => [-2]
   end.
 
-(* n (enc wid)* *)
+(* n (enc wid ascii)* *)
 Fixpoint dec_chars (n : nat) (l : list Z) : option (list chr * list Z) :=
   match n with
   | O => Some ([], l)
   | S k => match l with
-           | e :: w :: r => match dec_chars k r with Some (cs, r) => Some (Chr e w :: cs, r) | None => None end
+           | e :: w :: a :: r => match dec_chars k r with Some (cs, r) => Some (Chr e w (dec_bool a) :: cs, r) | None => None end
            | _ => None
            end
   end.
@@ -663,17 +671,17 @@ Fixpoint dec_lines (n : nat) (l : list Z) : option (list (list seg) * list Z) :=
            end
   end.
 
-(* maxcol nchars (enc wid)* nattr (attr run)* nlines (nsegs seg* )* *)
+(* maxcol isb nchars (enc wid ascii)* nattr (attr run)* nlines (nsegs seg* )* *)
 Definition run_layout (l : list Z) : list Z :=
   match l with
-  | maxcol :: nc :: r =>
+  | maxcol :: isb :: nc :: r =>
       match dec_chars (Z.to_nat nc) r with
       | Some (text, na :: r) =>
           match dec_runs (Z.to_nat na) r with
           | Some (attrs, nl :: r) =>
               match dec_lines (Z.to_nat nl) r with
               | Some (lines, _) =>
-                  match apply_text_layout text attrs lines maxcol with
+                  match apply_text_layout (dec_bool isb) text attrs lines maxcol with
                   | Ok rows => 0 :: zlen rows :: flat_map enc_rle rows
                   | Err e => err_reply e
                   end
@@ -686,7 +694,7 @@ Definition run_layout (l : list Z) : list Z :=
   | _ => [-2]
   end.
 
-(* Text(markup).render((maxcol,)): maxcol nchars (enc wid)* markup nlines (nsegs seg* )* *)
+(* Text(markup).render((maxcol,)): maxcol nchars (enc wid ascii)* markup nlines (nsegs seg* )* *)
 Definition run_text (l : list Z) : list Z :=
   match l with
   | maxcol :: nc :: r =>
@@ -696,10 +704,10 @@ Definition run_text (l : list Z) : list Z :=
           | Some (m, nl :: r) =>
               match decompose_tagmarkup m with
               | Err e => err_reply e
-              | Ok (_, _, al) =>
+              | Ok (isb, _, al) =>
                   match dec_lines (Z.to_nat nl) r with
                   | Some (lines, _) =>
-                      match apply_text_layout text al lines maxcol with
+                      match apply_text_layout isb text al lines maxcol with
                       | Ok rows => 0 :: zlen rows :: flat_map enc_rle rows
                       | Err e => err_reply e
                       end
